@@ -209,6 +209,8 @@ def events_from_stream(b):
             events.append(EventNBBO(dt(t), b.rate_contract, payload, payload))
         elif kind == "P":
             events.append(Ping(dt(t), payload[0], payload[1]))
+        elif kind == "DISC":
+            events.append(EventContractDiscontinued(dt(t), b.contracts[payload]))
         else:
             raise ValueError(kind)
     return events
